@@ -18,6 +18,11 @@ coverage *nondet_cov(void);
 
 void h_find_const(void) { ARGS coverage_find_const(c, start); }
 void h_find(void) { ARGS coverage_find(c, start); }
+void h_add(void) { ARGS coverage_add(c, start, length); }
+vec_cov_range *nondet_vec(void); cov_range *nondet_rng(void);
+void h_vec_push_back(void) { vec_push_back(nondet_vec(), nondet_rng()); }
+void h_vec_insert(void) { vec_insert(nondet_vec(), nondet_rng(), nondet_rng()); }
+void h_vec_erase(void) { vec_erase(nondet_vec(), nondet_rng(), nondet_rng()); }
 void h_is_covered(void) { ARGS coverage_is_covered(c, start, length); }
 void h_is_overlap(void) { ARGS coverage_is_overlap(c, start, length); }
 
